@@ -39,6 +39,32 @@ func (w *bitWriter) align() {
 
 type tok struct{ lit, length, dist int } // length==0 => literal
 
+// firstUnassigned returns a bit pattern (value, length) that no codeword of the (incomplete) canonical code
+// for lens is a prefix of, and that is no prefix of a codeword: the first free code of the greatest length.
+func firstUnassigned(lens []int) (code, n int, ok bool) {
+	var cnt [17]int
+	maxl := 0
+	for _, l := range lens {
+		cnt[l]++
+		if l > maxl {
+			maxl = l
+		}
+	}
+	if maxl == 0 {
+		return 0, 0, false
+	}
+	cnt[0] = 0
+	c := 0
+	for l := 1; l <= maxl; l++ {
+		c = (c + cnt[l-1]) << 1
+	}
+	c += cnt[maxl] // next free code of length maxl
+	if c >= 1<<uint(maxl) {
+		return 0, 0, false // complete code
+	}
+	return c, maxl, true
+}
+
 func canonCodes(lens []int) []int {
 	var cnt [17]int
 	for _, l := range lens {
@@ -618,42 +644,52 @@ func (s *Synth) dynamic(final bool, toks []tok, o SynthOpts) {
 	// body: encoded with the complete assignment (encLL/encDL)
 	switch {
 	case fault == "unassigned-code" && injected:
-		s.emitNoEOB(toks, encLL, encDL)
-		s.apply(toks)
-		lc := canonCodes(encLL)
-		s.w.code(lc[bad.lit], encLL[bad.lit])
+		// the header's code is incomplete (victim dropped): encode the tokens with THAT code, then emit a bit
+		// pattern it leaves unassigned
+		body := toks[:0:0]
+		for _, t := range toks {
+			if !(t.length == 0 && t.lit == bad.lit) {
+				body = append(body, t)
+			}
+		}
+		s.emitNoEOB(body, ll, encDL)
+		s.apply(body)
+		if c, n, ok := firstUnassigned(ll[:hlit]); ok {
+			s.w.code(c, n)
+		}
 		s.w.bits(int(s.r.U64()&0xffffff), 24)
-	case extraTok != nil:
-		s.emitNoEOB(toks, encLL, encDL)
-		s.apply(toks)
-		if len(s.out) == 0 || extraTok.dist > len(s.out) {
-			// need some output first
-			lc := canonCodes(encLL)
-			x := ul[0]
-			if x < 256 {
-				for len(s.out) < extraTok.dist && len(s.out) < 40000 {
-					s.w.code(lc[x], encLL[x])
-					s.out = append(s.out, byte(x))
+	case extraTok != nil && (fault == "unassigned-dist" || fault == "unassigned-dist-long"):
+		victimSym, _, _ := distSym(extraTok.dist)
+		body := toks[:0:0]
+		for _, t := range toks {
+			if t.length != 0 {
+				if ds, _, _ := distSym(t.dist); ds == victimSym {
+					continue
 				}
 			}
+			body = append(body, t)
 		}
-		lc, dc := canonCodes(encLL), canonCodes(encDL)
-		ls, eb, e := lenSym(extraTok.length)
-		if encLL[ls] == 0 {
-			// length symbol not coded: fall back to any coded length symbol
-			for q := 257; q < 286; q++ {
-				if encLL[q] != 0 {
-					ls, eb, e = q, refLenExtra[q-257], 0
-					break
-				}
+		s.emitNoEOB(body, encLL, dl)
+		s.apply(body)
+		lc := canonCodes(encLL)
+		ls := -1
+		for q := 257; q < 286; q++ {
+			if encLL[q] != 0 {
+				ls = q
+				break
 			}
 		}
-		if encLL[ls] != 0 {
+		if ls >= 0 {
+			if len(s.out) == 0 {
+				x := ul[0]
+				s.w.code(lc[x], encLL[x])
+				s.out = append(s.out, byte(x))
+			}
 			s.w.code(lc[ls], encLL[ls])
-			s.w.bits(e, eb)
-			ds, deb, de := distSym(extraTok.dist)
-			s.w.code(dc[ds], encDL[ds])
-			s.w.bits(de, deb)
+			s.w.bits(0, refLenExtra[ls-257])
+			if c, n, ok := firstUnassigned(dl[:hdist]); ok {
+				s.w.code(c, n)
+			}
 		}
 		s.w.bits(int(s.r.U64()&0xffffff), 24)
 	case fault == "missing-eob":
